@@ -466,7 +466,9 @@ start:
 					if !ok {
 						return false
 					}
-					return k.Value == nil
+					// A nil Value alone isn't enough: zero values of
+					// structs, arrays and some type parameters have one, too.
+					return k.IsNil()
 				}
 				var target ir.Value
 				if isNil(binop.X) {
